@@ -193,11 +193,11 @@ PROPS['C15'] = dict(
     level='proof',
     technique='Kani loop-free full-domain check of the real UnsignedInteger::bit_index for every integer width; Verus contracts on the index/rotation expressions sliced from the real FheUint bit-surgery functions and from the partial-preparation work split; Verus representation invariant + functional postcondition on the real text of the blind retriever (add_core / add / flush / reset / retrieve) over abstract GLWE plaintexts',
     level_text='Complete for u8..u128: bit_index is a bijection of 0..BITS onto 0..BITS (inverse formula), byte k occupies residue class k modulo BYTES (the documented trace isolation). Unbounded (every word width 8..128, every ring degree 2^log_n with LOG_BITS <= log_n < 63, every bit/byte index): encrypt_sk, decrypt, pack, get_bit_lwe (both branches), get_bit_glwe, get_byte, zero_byte, sext, splice_u8 and splice_u16 address coefficient bit_pos(i) * 2^(log_n - LOG_BITS) of the documented layout (rotation amounts, their signs, the trace start and the byte pairs of a half-word), with no overflow; partial preparation hands thread t / position l the bit bit_start + t*chunk + l.',
-    level_note='The bit-addressing arithmetic, and the blind retriever as a data structure: for every capacity (1..=31 accumulator levels), every number of items (powers of two or not) and every selector, the real add / flush / retrieve keep the representation invariant (flags all 0 after flush / reset, counter = number of items, each flagged level = CMux selection of a complete block) and flush returns the item whose index is spelled by selector bits offset..offset+levels, GIVEN that cmux_assign_neg(res, a, s) computes s ? a : res on plaintexts and glwe_copy copies (assumed: C04 / C09); and glwe_blind_retrieval_statefull (the butterfly of conditional swaps) leaves in element 0 the element addressed by the selector sub-field, for every vector length and every bit_mask <= 62, GIVEN that cswap swaps exactly when its selector bit is 1. Everything else homomorphic (bootstrapping, word operations, what rotate/trace/pack do with those positions, the HashMap-based blind selection) is undecided; glwe_blind_retrieval_statefull_rev is proved to apply the levels in the opposite order, and the pure lemma lemma_rev_fwd shows that it restores the vector the forward network started from. The replication rotations of sext (signed shifts by symbolic amounts) are not covered.',
+    level_note='The bit-addressing arithmetic, and the blind retriever as a data structure: for every capacity (1..=31 accumulator levels), every number of items (powers of two or not) and every selector, the real add / flush / retrieve keep the representation invariant (flags all 0 after flush / reset, counter = number of items, each flagged level = CMux selection of a complete block) and flush returns the item whose index is spelled by selector bits offset..offset+levels, GIVEN that cmux_assign_neg(res, a, s) computes s ? a : res on plaintexts and glwe_copy copies (assumed: C04 / C09); and glwe_blind_retrieval_statefull (the butterfly of conditional swaps) leaves in element 0 the element addressed by the selector sub-field, for every vector length and every bit_mask <= 62, GIVEN that cswap swaps exactly when its selector bit is 1. Everything else homomorphic (bootstrapping, word operations, what rotate/trace/pack do with those positions, the HashMap-based blind selection) is undecided; glwe_blind_retrieval_statefull_rev is proved to apply the levels in the opposite order, and the pure lemma lemma_rev_fwd shows that it restores the vector the forward network started from. The replication loop of sext is covered (three doublings, the i-th by the distance of bit 2^i, for every word width; ring degrees with log_n - LOG_BITS < 56).',
     units=[K('poulpy-bin-fhe', 'bdd_arithmetic::verif_kani', [f'c15_bit_index_{t}' for t in ['u8', 'u16', 'u32', 'u64', 'u128']], cls='complete', timeout=300,
              functions=['UnsignedInteger::bit_index (u8, u16, u32, u64, u128)']),
            V('bitaddr', lemmas=['lemma_bit_pos_injective', 'lemma_coeff_range', 'bit_index_c', 'c15_encrypt_slot', 'c15_decrypt_slot', 'c15_pack_slot', 'c15_get_bit_lwe_slot',
-                                'c15_get_bit_glwe_rot', 'c15_get_byte_rot', 'c15_zero_byte_rot', 'c15_sext_rot', 'c15_splice_u8_rot', 'c15_splice_u16_bytes']),
+                                'c15_get_bit_glwe_rot', 'c15_get_byte_rot', 'c15_zero_byte_rot', 'c15_sext_rot', 'c15_sext_replication', 'c15_splice_u8_rot', 'c15_splice_u16_bytes']),
            V('partition', lemmas=['c20_prepare_item', 'c20_no_item_skipped_or_repeated']),
            V('bdd_retriever', lemmas=['lemma_psel', 'lemma_rev_fwd'])],
     trusted_base=VERUS_TRUST + ['slice substitutions (textual, listed in the unit): module.log_n() => log_n, T::LOG_BITS / T::LOG_BYTES => explicit parameters, T::bit_index( => bit_index_c(log_bytes, (the same real expression, proved for LOG_BYTES 0..=4)',
